@@ -156,6 +156,7 @@ package service
 //@   opt no-callee-pre
 //@   opt inline-none
 //@   opt go-ignore
+//@   opt volatile bal, bal_stale
 //@   requires t != nil
 //@   callpre SetBalance: !ghost(bal_stale) && big(v) == ghost(bal)[a] + big(gatheredFee)
 //@   loop 0: invariant true
